@@ -6,7 +6,7 @@
 
    The initiator submits N remote_execs.  Submission k is "sequential" if it is
    issued after the close of channel k-1 was observed, otherwise "overlapping".
-   Each body has an outcome: "ret", "raise", "sysexit" or "block" (it blocks until
+   Each body has an outcome: "ret", "raise", "sysexit", "kbdint" (KeyboardInterrupt raised inside the body) or "block" (it blocks until
    the next submission has been answered -- the situation the deadlock error is for).
 
    The 1 second wait in _local_schedulexec expires only at quiescence (time-outs are
@@ -21,7 +21,7 @@ CONSTANTS N,                  \* number of submissions
           Fix_CompleteOnAllPaths,
           ClearBeforeSpawn
 
-VARIABLES Outcome,    \* [1..N -> {"ret", "raise", "sysexit", "block"}]  the history (chosen initially, never changed)
+VARIABLES Outcome,    \* [1..N -> {"ret", "raise", "sysexit", "kbdint", "block"}]  the history (chosen initially, never changed)
           Overlap,    \* [1..N -> BOOLEAN]: submission k does not wait for the close of k-1
           ipc,        \* initiator: next submission index (1..N+1)
           wire,       \* EXEC frames in flight
@@ -37,7 +37,7 @@ VARIABLES Outcome,    \* [1..N -> {"ret", "raise", "sysexit", "block"}]  the his
 vars == <<Outcome, Overlap, ipc, wire, seen, complete, rpc, rk, mbox, ready, prevdone, mpc, mk, started, answered>>
 
 Subs == 1..N
-Init == /\ Outcome \in [1..N -> {"ret", "raise", "sysexit", "block"}]
+Init == /\ Outcome \in [1..N -> {"ret", "raise", "sysexit", "kbdint", "block"}]
         /\ Overlap \in [1..N -> BOOLEAN]
         /\ ~Overlap[1]
         /\ \A k \in 1..N : Outcome[k] = "block" => (k < N /\ Overlap[k + 1])   \* a blocked body waits for the next submission
@@ -99,7 +99,7 @@ MUnblock ==        \* a blocking body continues once the next submission has bee
   /\ UNCHANGED <<ipc, wire, seen, complete, rpc, rk, mbox, ready, prevdone, mk, started, answered>>
 MClose ==          \* channel.close() / close(errortext): the CLOSE frame goes out
   /\ mpc = "close"
-  /\ answered' = (mk :> (IF Outcome[mk] \in {"raise", "sysexit"} THEN "error" ELSE "closed")) @@ answered
+  /\ answered' = (mk :> (IF Outcome[mk] \in {"raise", "sysexit", "kbdint"} THEN "error" ELSE "closed")) @@ answered
   /\ mpc' = "signal"
   /\ UNCHANGED <<ipc, wire, seen, complete, rpc, rk, mbox, ready, prevdone, mk, started>>
 MSignal ==         \* _executetask_complete.set() -- on the success path only, before the fix
